@@ -15,6 +15,8 @@ def run(rep, tier):
     n = 6 if tier == "quick" else 400
     conn = sigrt.connect_cases(rep.seed, n)
     fails, stats = sigrt.signature_checks()
+    for descr, err in sigrt.default_granularity_cases():
+        fails.append(("C20", f"{descr} (granularity left out): {err}", "default-granularity:" + descr.split("(")[0]))
     seen = set()
     found = False
     for descr, port, role, err in conn:
